@@ -229,7 +229,7 @@ class CircuitResult:
             self.num_qubits = len(qubits)
             for key, value in counts.items():
                 key = key.replace(" ", "")  # might contain spaces to separate registers
-                key = "".join(key[index] for index in qubits)
+                key = "".join(key[len(key) - 1 - index] for index in reversed(qubits))
                 self.results.append(BinaryResult(Bitstring(int(key, 2)), value))
 
     def __str__(self) -> str:
